@@ -2650,6 +2650,15 @@ impl DcpsDomainParticipant {
 
         let prefix = Guid::from(<[u8; 16]>::from(*handle)).prefix();
 
+        // The endpoints of a removed participant are gone with it. Forget them so that
+        // they are not matched again if their own disposal was lost or arrives later.
+        self.domain_participant
+            .discovered_reader_list
+            .retain(|r| r.dds_subscription_data.key().value[..12] != prefix);
+        self.domain_participant
+            .discovered_writer_list
+            .retain(|w| w.dds_publication_data.key().value[..12] != prefix);
+
         for subscriber in &mut self.domain_participant.user_defined_subscriber_list {
             for data_reader in &mut subscriber.data_reader_list {
                 // Remove samples
